@@ -243,7 +243,18 @@ var keyedConfusions = map[string][]any{
 	"host":                  anys("", ":", "a b", "[::1", "upstream:99999"),
 	"strip_path_prefix":     anys("", "gen", "/gen0/", "//"),
 	"expression":            anys("", "1", "!!", "Payload.a.b.c", "true ||"),
+	"payload":               anys(oddTemplates...),
+	"c":                     anys(oddTemplates...),
+	"a":                     anys(oddTemplates...),
+	"X-A":                   anys(oddTemplates...),
+	"subject":               anys(oddTemplates...),
 }
+
+// oddTemplates: texts which are templates by their syntax and come without anything to render, without an end, or with
+// references to what does not exist.
+var oddTemplates = []string{"", `{{/* set by the backend */}}`, `{{- /* nothing */ -}}`, `{{ define "foo" }}bar{{ end }}`, `{{ define "a" }}{{ end }}{{ define "b" }}x{{ end }}`,
+	`{{ template "missing" }}`, `{{ `, `{{ nil }}`, `{{ . | nosuchfunc }}`, `{{ if }}`, `{{ range .Nothing }}`, `{{ end }}`, `{{ .Subject.ID.Deeper.Still }}`, `{{ index .Request.Headers 5 }}`,
+	`{{ block "b" . }}{{ end }}`, `{{- "" -}}`, `{{ with $x := 1 }}{{ end }}`, `{{ break }}`, `{{ template "a" }}{{ define "a" }}{{ template "a" }}{{ end }}`}
 
 var confusions = []any{nil, 5, -1.5, true, "", "a string", []any{}, []any{1, "x"}, []any{map[string]any{"k": "v"}}, map[string]any{}, map[string]any{"unexpected": []any{1}},
 	[]any{nil}, map[string]any{"authenticator": 5}, "{{ bad template", "/**/x", 1e30,
